@@ -9,7 +9,8 @@
 (*     derivation), obs: what each wallet (created from some listing order *)
 (*     and private holder) reports: address, child keys, path.             *)
 (*  kind "ceremony": one signing ceremony on real wallets                  *)
-(*     m, wt, net, sorted, listing, pubs, holder, amount, events (action + *)
+(*     m, wt, net, sorted, listing, pubs, holder, funds (the outputs of    *)
+(*     the common address: outpoint and amount), events (action +          *)
 (*     what the wallet's transaction object reported after it), txs (the   *)
 (*     distinct raw serializations seen).                                  *)
 (* Primitives stay outside TLC: a record carries `facts`, a list of        *)
@@ -158,13 +159,21 @@ BodyOf(p) == IF ~p.ok THEN NoBody
              ELSE [version |-> p.tx.version, locktime |-> p.tx.locktime,
                    ins |-> [i \in 1..Len(p.tx.ins) |-> [txid |-> p.tx.ins[i].txid, vout |-> p.tx.ins[i].vout, seq |-> p.tx.ins[i].seq]],
                    outs |-> p.tx.outs]
+\* the funded output an input spends (r.funds: [txid, vout, amount] in wire byte order), 0 if there is none
+FundOf(r, in) == LET I == {k \in 1..Len(r.funds) : r.funds[k].txid = in.txid /\ r.funds[k].vout = in.vout} IN
+                 IF I = {} THEN 0 ELSE CHOOSE k \in I : TRUE
 JudgeParsed(r, p) ==
     IF ~p.ok THEN [v |-> "unparsable", need |-> <<>>]
+    ELSE IF \E i \in 1..Len(p.tx.ins) : FundOf(r, p.tx.ins[i]) = 0
+    THEN [v |-> "spends-an-outpoint-that-is-not-an-output-of-the-common-address", need |-> <<>>]
+    ELSE IF \E i, j \in 1..Len(p.tx.ins) : i # j /\ p.tx.ins[i].txid = p.tx.ins[j].txid /\ p.tx.ins[i].vout = p.tx.ins[j].vout
+    THEN [v |-> "spends-an-outpoint-twice", need |-> <<>>]
     ELSE LET rs == ScriptBytes(r)
              keys == ScriptKeys(r)
              tx == [p.tx EXCEPT !.ins = [i \in 1..Len(p.tx.ins) |->
                        [txid |-> p.tx.ins[i].txid, vout |-> p.tx.ins[i].vout, script |-> p.tx.ins[i].script,
-                        seq |-> p.tx.ins[i].seq, wit |-> p.tx.ins[i].wit, kind |-> Kind(r.wt), amount |-> r.amount,
+                        seq |-> p.tx.ins[i].seq, wit |-> p.tx.ins[i].wit, kind |-> Kind(r.wt),
+                        amount |-> r.funds[FundOf(r, p.tx.ins[i])].amount,
                         pkh |-> <<>>, pub |-> <<>>, keys |-> keys, m |-> r.m]]]
              js == [i \in 1..Len(tx.ins) |-> JudgeInput(r, tx, i, rs, keys)]
              need == Concat([i \in 1..Len(js) |-> js[i].need]) IN
